@@ -121,6 +121,10 @@ func (c05) Run(c *Ctx, raw json.RawMessage) Case {
 			fmt.Fprintf(&src, "\t%s(id int, tag string)\n", m)
 		}
 	}
+	if in.Template == "matryer" {
+		// methods without parameters (their records carry nothing) next to the others
+		src.WriteString("\tTick()\n\tTock() int\n")
+	}
 	src.WriteString("}\n")
 	files := map[string]string{
 		"go.mod":         goModText + "\nrequire github.com/stretchr/testify v1.10.0\n",
@@ -177,6 +181,10 @@ func (c05) Run(c *Ctx, raw json.RawMessage) Case {
 				}
 			}
 		}
+		if !in.StubImpl {
+			t.WriteString("\tm.TickFunc = func() {}\n\tm.TockFunc = func() int { return 1 }\n")
+		}
+		t.WriteString("\tvar ticks atomic.Int64\n")
 		t.WriteString("\tcheck := func(ids []int, tags []string) {\n\t\tseen := map[int]bool{}\n\t\tfor i, id := range ids {\n\t\t\tif seen[id] || strconv.Itoa(id) != tags[i] { bad.Add(1) }\n\t\t\tseen[id] = true\n\t\t}\n\t}\n")
 		t.WriteString("\tsnapshot := func(mi int) ([]int, []string) {\n\t\tvar ids []int\n\t\tvar tags []string\n\t\tswitch mi {\n")
 		for i, mn := range in.Methods {
@@ -191,7 +199,7 @@ func (c05) Run(c *Ctx, raw json.RawMessage) Case {
 				fmt.Fprintf(&t, "\t\t\t\t\tcase %d:\n\t\t\t\t\t\tm.%s(o.x, strconv.Itoa(o.x))\n", i, mn)
 			}
 		}
-		t.WriteString("\t\t\t\t\t}\n\t\t\t\tcase 1:\n\t\t\t\t\tcheck(snapshot(o.m))\n")
+		t.WriteString("\t\t\t\t\t}\n\t\t\t\t\tif o.x%3 == 0 {\n\t\t\t\t\t\tm.Tick()\n\t\t\t\t\t\t_ = m.Tock()\n\t\t\t\t\t\tticks.Add(1)\n\t\t\t\t\t}\n\t\t\t\tcase 1:\n\t\t\t\t\tcheck(snapshot(o.m))\n\t\t\t\t\t_ = len(m.TickCalls()) + len(m.TockCalls())\n")
 		if in.WithResets {
 			t.WriteString("\t\t\t\tcase 2:\n\t\t\t\t\tswitch o.m {\n")
 			for i, mn := range in.Methods {
@@ -201,6 +209,11 @@ func (c05) Run(c *Ctx, raw json.RawMessage) Case {
 		}
 		t.WriteString("\t\t\t\t}\n\t\t\t}\n\t\t}(ops)\n\t}\n\tclose(start)\n\twg.Wait()\n")
 		fmt.Fprintf(&t, "\tcounts := make([]int, %d)\n\tsums := make([]int, %d)\n\tfor mi := range counts {\n\t\tids, tags := snapshot(mi)\n\t\tcheck(ids, tags)\n\t\tcounts[mi] = len(ids)\n\t\tfor _, id := range ids { sums[mi] += id }\n\t}\n", len(in.Methods), len(in.Methods))
+		if !hasReset {
+			t.WriteString("\tif int64(len(m.TickCalls())) != ticks.Load() || int64(len(m.TockCalls())) != ticks.Load() { bad.Add(1) }\n")
+		} else {
+			t.WriteString("\tif int64(len(m.TickCalls())) > ticks.Load() || int64(len(m.TockCalls())) > ticks.Load() { bad.Add(1) }\n")
+		}
 		t.WriteString("\tfmt.Printf(\"RESULT {\\\"counts\\\":%s,\\\"sums\\\":%s,\\\"bad\\\":%d}\\n\", js(counts), js(sums), bad.Load())\n}\n\n")
 		t.WriteString("func js(xs []int) string {\n\ts := \"[\"\n\tfor i, x := range xs {\n\t\tif i > 0 { s += \",\" }\n\t\ts += strconv.Itoa(x)\n\t}\n\treturn s + \"]\"\n}\n")
 	} else {
